@@ -23,7 +23,7 @@ use vh::runner::{CaseReport, CaseResult, Ctx, Failure};
 use super::ring::{self, LinkRule, RingCfg, Session, Sqe};
 use super::sys::{self, errname};
 
-pub const NL: usize = 6;
+pub const NL: usize = 4;
 pub const FIXBUF: usize = 256;
 
 #[derive(Debug, Clone, Serialize, Deserialize)]
@@ -178,14 +178,17 @@ impl World {
         let mut lanes = Vec::new();
         for k in 0..NL {
             let dir = format!("{prefix}/l{k}");
-            std::fs::create_dir_all(format!("{dir}/d0")).unwrap();
+            std::fs::create_dir_all(&dir).unwrap();
+            sys::empty_dir(std::path::Path::new(&dir), &["d0"]);
+            if !std::path::Path::new(&format!("{dir}/d0")).is_dir() {
+                std::fs::create_dir(format!("{dir}/d0")).unwrap();
+            }
             std::fs::write(format!("{dir}/f0"), pattern(sizes[0] as usize, 1)).unwrap();
             std::fs::write(format!("{dir}/f1"), pattern(sizes[1] as usize, 2)).unwrap();
             std::fs::write(format!("{dir}/d0/g0"), pattern(10, 3)).unwrap();
             std::fs::write(format!("{dir}/r0"), pattern(100, 4)).unwrap();
             std::fs::write(format!("{dir}/r1"), b"").unwrap();
             std::os::unix::fs::symlink("f0", format!("{dir}/s0")).unwrap();
-            std::os::unix::fs::symlink("nowhere", format!("{dir}/s1")).unwrap();
             let o = |p: &str, fl: i32| -> i32 {
                 let c = sys::cstr(p.as_bytes());
                 let fd = unsafe { libc::open(c.as_ptr(), fl) };
@@ -223,6 +226,10 @@ impl World {
 
 pub fn case_root(ctx: &Ctx) -> PathBuf {
     PathBuf::from(format!("/tmp/verif-c18-{}-{}", std::process::id(), ctx.worker))
+}
+
+pub fn remove_case_root(ctx: &Ctx) {
+    let _ = std::fs::remove_dir_all(case_root(ctx));
 }
 
 // ---------------------------------------------------------------- resolved entries
@@ -270,12 +277,18 @@ pub struct Entry {
     pub ud: u64,
 }
 
-fn dir_of(lane: &Lane, d: DirRef) -> i32 {
+#[derive(Clone, Copy)]
+struct LaneView {
+    dirfd: i32,
+    reg0: i32,
+}
+
+fn dir_of(lane: &LaneView, d: DirRef) -> i32 {
     match d {
         DirRef::Abs => libc::AT_FDCWD,
         DirRef::LaneDir => lane.dirfd,
         DirRef::BadFd => sys::bad_fd(1),
-        DirRef::NotDir => lane.reg[0],
+        DirRef::NotDir => lane.reg0,
     }
 }
 
@@ -509,13 +522,11 @@ pub enum Started<'c> {
 impl<'c> Engine<'c> {
     pub fn start(ctx: &'c Ctx, cfg: RingCfg, sizes: [u16; 2]) -> Started<'c> {
         let root = case_root(ctx);
-        let _ = std::fs::remove_dir_all(&root);
         std::fs::create_dir_all(&root).unwrap();
         let fds_at_start = sys::open_fd_count();
         let s = match Session::new(cfg) {
             Ok(s) => s,
             Err(e) => {
-                let _ = std::fs::remove_dir_all(&root);
                 if ring::probe().accepts(&cfg) {
                     return Started::Fail(Failure::new("setup_io_uring|error|accepted flag set", format!("setup_io_uring({}, {}) failed: {e}", cfg.entries, cfg.flag_name())));
                 }
@@ -581,11 +592,12 @@ impl<'c> Engine<'c> {
         Started::Ok(Box::new(e))
     }
 
+    /// Descriptors and ring are released here; the world directories are emptied by the next
+    /// case and removed at the end of the run (`remove_case_root`).
     pub fn cleanup(&mut self) {
         self.a.close_all();
         self.b.close_all();
         self.s.finish();
-        let _ = std::fs::remove_dir_all(&self.root);
     }
 
     /// Normalise a generated batch: one chain per lane, total within the ring, arguments that
@@ -627,6 +639,7 @@ impl<'c> Engine<'c> {
             let mut cut = n;
             for (i, g) in ops.iter_mut().enumerate() {
                 let last = i + 1 == n;
+                sanitise_always(&mut g.op);
                 if n > 1 {
                     sanitise_for_chain(&mut g.op);
                 }
@@ -681,7 +694,8 @@ impl<'c> Engine<'c> {
     /// Execute one entry directly in world B. Returns the expectation and whether it counts as
     /// a failure for link purposes.
     fn exec_b(&mut self, lane: usize, op: &Op, sel: Option<FdSel>, mem: &mut Mem, new_b: &mut Vec<(usize, i32)>) -> (Expect, Option<&'static str>) {
-        let l = &self.b.lanes[lane];
+        let lv = LaneView { dirfd: self.b.lanes[lane].dirfd, reg0: self.b.lanes[lane].reg[0] };
+        let l = &lv;
         let fail_kind = |r: i32, kind: &'static str| if r < 0 { Some(kind) } else { None };
         unsafe {
             match op {
@@ -801,7 +815,8 @@ impl<'c> Engine<'c> {
                     } else if r == 1 {
                         (Expect::Exact(p.revents as i32), None)
                     } else {
-                        // not ready: cannot be submitted without blocking (excluded by sanitise_poll)
+                        // not ready: cannot be submitted without blocking (excluded by sanitise_poll);
+                        // the caller substitutes a descriptor that is never open
                         (Expect::Exact(i32::MIN), None)
                     }
                 }
@@ -873,7 +888,8 @@ impl<'c> Engine<'c> {
                 s => rfd(Self::fd_num(&self.a, lane, s)),
             }
         };
-        let l = &self.a.lanes[lane];
+        let lv = LaneView { dirfd: self.a.lanes[lane].dirfd, reg0: self.a.lanes[lane].reg[0] };
+        let l = &lv;
         let m = &e.mem_a;
         let ud = e.ud;
         unsafe {
@@ -972,7 +988,12 @@ impl<'c> Engine<'c> {
                     if let Op::PollAdd { ev, .. } = &mut op {
                         sanitise_poll(ev);
                     }
-                    let (exp, fk) = self.exec_b(*lane, &op, fdsel, &mut mem_b, &mut new_b);
+                    let (mut exp, mut fk) = self.exec_b(*lane, &op, fdsel, &mut mem_b, &mut new_b);
+                    if exp == Expect::Exact(i32::MIN) {
+                        fdsel = Some(FdSel::Bad(7));
+                        exp = Expect::Exact(-libc::EBADF);
+                        fk = Some("poll_add");
+                    }
                     if let Some(k) = fk {
                         self.stats.failing = true;
                         if k == "short-rw" {
@@ -1033,18 +1054,14 @@ impl<'c> Engine<'c> {
         let mut sqes = Vec::with_capacity(entries.len());
         for i in 0..entries.len() {
             let e = &entries[i];
-            if e.exp == Expect::Exact(i32::MIN) {
-                // unreachable by construction; never submit something that would block forever
-                panic!("harness: poll entry not ready in the reference world: {:?}", e.op);
-            }
             let sqe = vh::runner::no_panic(e.op.ctor(), || self.build_sqe(&entries[i]))?;
             sqes.push(Sqe::Rusl(sqe));
         }
         let cq = self.s.run(sqes)?;
         // ---- compare
         let mut new_a: Vec<(usize, i32)> = Vec::new();
-        let mut first_err: Option<Failure> = None;
-        for e in &entries {
+        let mut mism: Vec<(usize, i32)> = Vec::new();
+        for (i, e) in entries.iter().enumerate() {
             let c = cq.iter().find(|c| c.0 == e.ud).expect("session checked one completion per entry");
             let res = c.1;
             let ok = match &e.exp {
@@ -1056,25 +1073,33 @@ impl<'c> Engine<'c> {
             if res >= 0 && matches!(e.op, Op::Openat { .. }) {
                 new_a.push((e.lane, res));
             }
-            if !ok && first_err.is_none() {
-                let exp_s = match &e.exp {
-                    Expect::Exact(v) => show_res(*v),
-                    Expect::OneOf(vs) => vs.iter().map(|v| show_res(*v)).collect::<Vec<_>>().join(" or "),
-                    Expect::Cancelled => "-ECANCELED (an earlier entry of the link chain failed)".to_string(),
-                    Expect::NewFd(_) => "a new descriptor".to_string(),
-                };
-                let class = match &e.exp {
-                    Expect::Cancelled => "not-cancelled".to_string(),
-                    _ if res == -sys::ECANCELED => "cancelled".to_string(),
-                    Expect::Exact(v) => format!("ring={} direct={}", cls(res), cls(*v)),
-                    Expect::OneOf(vs) => format!("ring={} expected={}", cls(res), vs.iter().map(|v| cls(*v)).collect::<Vec<_>>().join("/")),
-                    Expect::NewFd(_) => format!("ring={} direct=fd", cls(res)),
-                };
-                first_err = Some(Failure::new(
-                    format!("{}|res-mismatch|{}", e.op.ctor(), class),
-                    format!("batch {bi}, lane {}, chain position {}{}: {:?} completed with res {} through the ring; the direct call gives {}", e.lane, e.pos, if e.last { " (last)" } else { " (linked)" }, e.op, show_res(res), exp_s),
-                ));
+            if !ok {
+                mism.push((i, res));
             }
+        }
+        let mut first_err: Option<Failure> = None;
+        if !mism.is_empty() {
+            let (i, res, before_issue) = super::sock::root_cause(&mism, |i| (entries[i].lane, entries[i].pos), |i| cq.iter().find(|c| c.0 == entries[i].ud).unwrap().1, entries.len());
+            let e = &entries[i];
+            let exp_s = match &e.exp {
+                Expect::Exact(v) => show_res(*v),
+                Expect::OneOf(vs) => vs.iter().map(|v| show_res(*v)).collect::<Vec<_>>().join(" or "),
+                Expect::Cancelled => "-ECANCELED (an earlier entry of the link chain failed)".to_string(),
+                Expect::NewFd(_) => "a new descriptor".to_string(),
+            };
+            let class = match &e.exp {
+                _ if before_issue => "failed-before-issue".to_string(),
+                Expect::Cancelled => "not-cancelled".to_string(),
+                _ if res == -sys::ECANCELED => "cancelled".to_string(),
+                Expect::Exact(v) => format!("ring={} direct={}", cls(res), cls(*v)),
+                Expect::OneOf(vs) => format!("ring={} expected={}", cls(res), vs.iter().map(|v| cls(*v)).collect::<Vec<_>>().join("/")),
+                Expect::NewFd(_) => format!("ring={} direct=fd", cls(res)),
+            };
+            let note = if before_issue { "; earlier entries of its chain were cancelled although they come first: the kernel rejected this entry when the chain was submitted, not when it was its turn" } else { "" };
+            first_err = Some(Failure::new(
+                format!("{}|res-mismatch|{}", e.op.ctor(), class),
+                format!("batch {bi}, lane {}, chain position {}{}: {:?} completed with res {} through the ring; the direct call gives {}{}", e.lane, e.pos, if e.last { " (last)" } else { " (linked)" }, e.op, show_res(res), exp_s, note),
+            ));
         }
         // descriptors created in this batch: pair them up (per lane in chain order) or close them
         let pair_result = self.adopt_new_fds(&entries, &cq, &new_a, &new_b);
@@ -1279,6 +1304,31 @@ fn sanitise_for_chain(op: &mut Op) {
     }
 }
 
+/// Applied to every entry. The ring copies path names in before issue, the system calls
+/// interleave that with their other argument checks: with an empty name *and* a second error
+/// (bad flags, bad second descriptor) the two report different errors — kernel precedence, not
+/// the wrapper's. An empty name is therefore only kept where it is the only possible error
+/// (one-path operations without flags) or no error at all (`statx` with exactly AT_EMPTY_PATH).
+fn sanitise_always(op: &mut Op) {
+    let fix = |n: &mut u8| {
+        if *n % NNAMES == NAME_EMPTY {
+            *n = 0;
+        }
+    };
+    match op {
+        Op::Renameat { oname, nname, .. } => {
+            fix(oname);
+            fix(nname);
+        }
+        Op::Statx { name, fl, .. } if *fl != 1 && *fl != 0 => fix(name),
+        // a zero-length transfer on a directory: read(2)/pread(2) ask the directory (EISDIR), the
+        // iterator-based paths return 0 without asking — kernel shortcut order, not the wrapper's
+        Op::ReadFixed { fd: FdRef::Dir, len, .. } | Op::WriteFixed { fd: FdRef::Dir, len, .. } if *len == 0 => *len = 1,
+        Op::Readv { fd: FdRef::Dir, lens } | Op::Writev { fd: FdRef::Dir, lens, .. } if lens.iter().all(|l| *l == 0) => lens[0] = 1,
+        _ => {}
+    }
+}
+
 /// Regular files and directories are always readable and writable for poll purposes; an
 /// event set without any of those would never complete.
 fn sanitise_poll(ev: &mut u16) {
@@ -1382,6 +1432,7 @@ pub fn run_case(ctx: &Ctx, case: &FsCase) -> CaseResult {
     }
     let submitted = e.s.submitted;
     let sq = e.s.sq_entries as u64;
+    crate::check::MAX_BATCHES.fetch_max(e.s.batches, std::sync::atomic::Ordering::Relaxed);
     e.cleanup();
     res?;
     let st = &e.stats;
